@@ -13,6 +13,7 @@ From Coq Require Import ZArith List String Bool Permutation.
 Import ListNotations.
 From TK Require Import Par_Model Par_Spec Par_Proof Par_Region_Model Par_Region_Proof Par_Region_Gen
   Par_Fill_Model Par_Fill_Proof Par_Row_Model Par_Row_Proof Par_Weight_Model Par_Weight_Proof Par_Event_Proof Par_Example Omp.
+From TK Require Import Par_Proof_Restore Dijkstra_Model Dijkstra_Spec Dijkstra_Sched_Model Dijkstra_Proof_Base Par_Iso_Model Par_Iso_Proof.
 
 (* ---------------------------------------------------------------- generic theorems (once) *)
 
@@ -423,3 +424,74 @@ Theorem c15_gen_regions_classified : forall r, In r regions ->
   forall p, In p (r_private r) -> p_class p = classify (p_events p) /\ p_class p <> PStale.
 Proof. exact Par_Region_Gen.gen_regions_classified. Qed.
 Print Assumptions c15_gen_regions_classified.
+
+(* ---------------------------------------------------------------- Isomap's geodesic stage: C15 linked with C04 *)
+
+(* T22 the loop body of compute_shortest_distances_matrix as a PROGRAM (Par_Iso_Model.iso_body: init writes, heap
+   insert, passes of the while loop built on C04's step functions, heap.clear()) under EVERY assignment of the rows
+   to threads and EVERY interleaving: no data race, and when all threads are done entry (k,j) of the shared matrix is
+   entry j of the row C04's single-row function computes from fresh arrays — whatever s[] / f[] and the matrix held
+   at the start and whatever earlier iterations of the same thread left behind; the heaps only have to start empty. *)
+Theorem c15_iso_all_schedules :
+  forall (fl : flavour) (nbrs : list (list nat)) (w : nat -> nat -> Z) (pick : list entry -> option entry)
+         (N K R : nat) (src_of : nat -> dres (nat * nat)) (want : nat -> list (option Z)),
+    (forall k, k < R -> exists src fidx, src_of k = DOk (src, fidx) /\
+                                         row_fl fl nbrs w pick N K src fidx = DOk (want k)) ->
+  forall (m0 : ikey -> ival) (p0 : nat -> ikey -> ival) asg sch qs st,
+    mem_nbrs N K m0 = nbrs -> valid_asg R asg -> (forall t, p0 t KHeap = VH []) ->
+    run_sched ikey_eqb sch (init_queues (iso_body fl w pick N K src_of) asg, mkState m0 p0 []) = (qs, st) ->
+    ~ race qs /\
+    (done qs ->
+       (forall k j, k < R -> j < N -> sh st (KD k j) = VD (nth j (want k) None)) /\
+       (forall x, (forall k j, k < R -> x <> KD k j) -> sh st x = m0 x)).
+Proof. exact Par_Iso_Proof.iso_all_schedules. Qed.
+Print Assumptions c15_iso_all_schedules.
+
+(* T23 with C04's correctness theorems: both overloads, both heap variants, every schedule: the matrix of
+   shortest-path distances (sp = Bellman-Ford characterisation of Dijkstra_Spec) *)
+Theorem c15_iso_full_matrix_all_schedules : forall fl nbrs w N K pick m0 p0 asg sch qs st,
+  wf_graph nbrs N K -> nonneg_w nbrs w -> pick_ok pick ->
+  mem_nbrs N K m0 = nbrs -> valid_asg N asg -> (forall t, p0 t KHeap = VH []) ->
+  run_sched ikey_eqb sch (init_queues (iso_body fl w pick N K (fun k => DOk (k, k))) asg, mkState m0 p0 []) = (qs, st) ->
+  ~ race qs /\
+  (done qs -> forall k j, k < N -> j < N -> sh st (KD k j) = VD (sp nbrs w N k j)).
+Proof. exact Par_Iso_Proof.iso_full_matrix_all_schedules. Qed.
+Print Assumptions c15_iso_full_matrix_all_schedules.
+
+Theorem c15_iso_landmark_matrix_all_schedules : forall fl nbrs w N K pick lm m0 p0 asg sch qs st,
+  wf_graph nbrs N K -> nonneg_w nbrs w -> pick_ok pick -> Forall (fun v => v < N) lm ->
+  mem_nbrs N K m0 = nbrs -> valid_asg (List.length lm) asg -> (forall t, p0 t KHeap = VH []) ->
+  run_sched ikey_eqb sch (init_queues (iso_body fl w pick N K (lm_src lm)) asg, mkState m0 p0 []) = (qs, st) ->
+  ~ race qs /\
+  (done qs -> forall k j, k < List.length lm -> j < N -> sh st (KD k j) = VD (sp nbrs w N (nth k lm O) j)).
+Proof. exact Par_Iso_Proof.iso_landmark_matrix_all_schedules. Qed.
+Print Assumptions c15_iso_landmark_matrix_all_schedules.
+
+(* the hypotheses are satisfiable (C04's 3-vertex graph, two threads, garbage in s[] / f[] / the matrix), the model
+   runs (an interleaved schedule of 2000 steps ends with both queues empty and the matrix sp_matrix), every
+   well-formed neighbour table has a memory image, and the empty-heap hypothesis cannot be dropped *)
+Example c15_iso_hypotheses_satisfiable :
+  wf_graph Dijkstra_Proof.f4_nbrs 3 1 /\ nonneg_w Dijkstra_Proof.f4_nbrs Dijkstra_Proof.f4_w /\ pick_ok pick_first_min /\
+  mem_nbrs 3 1 iso_ex_m0 = Dijkstra_Proof.f4_nbrs /\ valid_asg 3 iso_ex_asg /\ (forall t, iso_ex_p0 [] t KHeap = VH []).
+Proof. exact Par_Iso_Proof.iso_hypotheses_satisfiable. Qed.
+
+Example c15_iso_example :
+  iso_ex_out PQ [] = (0, 0, sp_matrix Dijkstra_Proof.f4_nbrs Dijkstra_Proof.f4_w 3) /\
+  iso_ex_out FIB [] = (0, 0, sp_matrix Dijkstra_Proof.f4_nbrs Dijkstra_Proof.f4_w 3).
+Proof. exact Par_Iso_Proof.iso_example. Qed.
+
+Theorem c15_iso_nbrs_encodable : forall nbrs N K dflt, wf_graph nbrs N K -> mem_nbrs N K (enc_nbrs nbrs dflt) = nbrs.
+Proof. exact Par_Iso_Proof.enc_nbrs_ok. Qed.
+Print Assumptions c15_iso_nbrs_encodable.
+
+Example c15_iso_stale_heap_refuted :
+  iso_ex_out PQ [(1, (-5)%Z)] <> (0, 0, sp_matrix Dijkstra_Proof.f4_nbrs Dijkstra_Proof.f4_w 3) /\
+  nth 1 (nth 2 (snd (iso_ex_out PQ [(1, (-5)%Z)])) []) (Some 0%Z) = None.
+Proof. exact Par_Iso_Proof.iso_stale_heap_refuted. Qed.
+
+(* T24 the four generated descriptors of compute_shortest_distances_matrix have the shape T22 is about *)
+Theorem c15_gen_iso_shapes :
+  Forall (fun r => iso_shape r = true) (filter is_iso_region regions) /\
+  List.length (filter is_iso_region regions) = 4.
+Proof. exact Par_Region_Gen.gen_iso_shapes. Qed.
+Print Assumptions c15_gen_iso_shapes.
